@@ -3,7 +3,7 @@ from . import has_class
 CFG = {
     "harness": ["v1", "v2"],
     "functional": ["C12.visible"],
-    "required_classes": ["visibility", "tags-0", "tags-1", "tags-3", "some-file-visible", "some-file-excluded", "regen-deepcopy-gen", "regen-execute", "recursive-input"],
+    "required_classes": ["visibility", "tags-0", "tags-1", "tags-3", "some-file-visible", "some-file-excluded", "regen-deepcopy-gen", "regen-execute", "recursive-input", "dependency-first-then-requested", "regen-separate-output-wildcard"],
     "rule": "packages of 2-5 files carrying //go:build lines, legacy // +build lines or both over the tags {a, b, g} (tag, negation, conjunction, disjunction, negated conjunction), each file declaring a type with a doc comment, a method on a shared type and an import of its own; loaded by the real v1 (AddBuildTags) and v2 (Options.BuildTags) loaders under 7 tag sets; observable = which types, methods, comments and imports are in the universe; in-place regeneration with the real deepcopy-gen (v1, in process through args.GeneratorArgs.Execute on a scratch GOPATH) and with a gengo.Execute-based tool using GoBoilerplate/StdBuildTag (v2), run 3 times with the previous output absent, present and stale: same universe, same bytes; non-trivial = input longer than 12 characters",
     "exhaustive": [],
     "modelled": "build-constraint evaluation and the tree/tool abstraction (an arbitrary generator writing one file with a !tag constraint). go/build's and go list's file selection, the loaders and the generators themselves are exercised, not modelled here (C01, C16).",
